@@ -249,8 +249,17 @@ def run_lines(exe, sub, lines, shards=NPROC, timeout=3000, env=None):
     import threading
     outs = [None] * shards
     def work(i):
-        o, err = procs[i].communicate("\n".join(chunks[i]) + "\n", timeout=timeout)
-        outs[i] = (o.splitlines(), err, procs[i].returncode)
+        # a shard that does not come back (a case on which the implementation never returns: creeping float propagation,
+        # a stalled bisection) is killed and re-run line by line below, each line under its own time limit -> "HANG"
+        lim = min(timeout, max(300.0, 0.05 * len(chunks[i])))
+        try:
+            o, err = procs[i].communicate("\n".join(chunks[i]) + "\n", timeout=lim)
+            outs[i] = (o.splitlines(), err, procs[i].returncode)
+        except subprocess.TimeoutExpired:
+            procs[i].kill()
+            try: procs[i].communicate(timeout=10)
+            except Exception: pass
+            outs[i] = ([], "shard timeout", -9)
     ths = [threading.Thread(target=work, args=(i,)) for i in range(shards)]
     for t in ths: t.start()
     for t in ths: t.join()
@@ -262,7 +271,7 @@ def run_lines(exe, sub, lines, shards=NPROC, timeout=3000, env=None):
             o = []
             for l in chunks[i]:
                 try:
-                    q = subprocess.run([exe, sub], input=l + "\n", stdout=subprocess.PIPE, stderr=subprocess.PIPE, text=True, timeout=600, env=e)
+                    q = subprocess.run([exe, sub], input=l + "\n", stdout=subprocess.PIPE, stderr=subprocess.PIPE, text=True, timeout=(30 if rc == -9 else 600), env=e, preexec_fn=big_stack)
                     ol = q.stdout.splitlines()
                     o.append(ol[0] if ol else "CRASH rc=%d %s" % (q.returncode, q.stderr.strip()[:100]))
                 except subprocess.TimeoutExpired:
